@@ -1,5 +1,6 @@
 import PyxisVerif.Model.Obs
 import PyxisVerif.Model.ParseObs
+import PyxisVerif.Model.Full
 import PyxisVerif.Spec.C03
 /-!
 # `pxmodel` – line-protocol driver of the model (PROTOCOL.md §4)
@@ -23,31 +24,48 @@ def specObs (c : Case) : Sexp :=
     | none => []
   Sexp.mk "spec" c03
 
-/-- `ItemPath::from_path(rel)`: `with_extension("")` (drop what follows the last dot of the file name,
-    unless that dot is its first character), then one segment per path component -/
-def pathOfFile (file : String) : Path :=
-  let comps := (file.splitOn "/").filter (· != "")
-  match comps.reverse with
+/-- token kinds with everything that the grammar treats as optional spelling removed: a separator
+    (`,` / `;`) directly before a closing delimiter, the spacing of punctuation, `type T {}` for `type T;`,
+    and `#[a] #[b]` for `#[a, b]` -/
+def normKinds : List Lex.K → List Lex.K
   | [] => []
-  | last :: revInit =>
-    let cs := last.toList
-    let stem :=
-      match cs.reverse.dropWhile (· != '.') with
-      | [] => last
-      | _ :: revStem => if revStem.isEmpty then last else String.ofList revStem.reverse
-    revInit.reverse ++ [stem]
+  | .punct '#' _ :: .op .bracket :: .cl .bracket :: rest => normKinds rest            -- `#[]`: no attribute
+  | .punct '#' _ :: .punct '!' _ :: .op .bracket :: .cl .bracket :: rest => normKinds rest
+  | .punct '-' _ :: .int 0 :: rest => .int 0 :: normKinds rest                       -- `-0`
+  | .cl .bracket :: .punct '#' _ :: .op .bracket :: rest => .punct ',' false :: normKinds rest
+  | .cl .bracket :: .punct '#' _ :: .punct '!' _ :: .op .bracket :: rest => .punct ',' false :: normKinds rest
+  | .ident "type" :: .ident x :: .op .brace :: .cl .brace :: rest =>
+    .ident "type" :: .ident x :: .punct ';' false :: normKinds rest
+  | .punct ':' _ :: rest => normKinds rest      -- `use a::::b`, `use ::a`: the path parser skips any run of `::`
+  | .punct c _ :: rest =>
+    match rest with
+    | .cl _ :: _ => if c == ',' || c == ';' then normKinds rest else .punct c false :: normKinds rest
+    | _ => .punct c false :: normKinds rest
+  | k :: rest => k :: normKinds rest
 
-/-- text modules are parsed with the parser model first (as `SemanticState::add_file` does);
-    a parse error is the error of the whole build, with file:line:column -/
-def resolveTexts (c : Case) : Except String Case := do
-  let mods ← c.modules.mapM fun me =>
-    match me with
-    | .ast .. => pure me
-    | .text file text =>
-      match Parse.parseStr text with
-      | .ok m => pure (ModEnt.ast (pathOfFile file) file m)
-      | .error (l, col) => throw s!"failed to parse {file}:{l}:{col + 1}"
-  pure { c with modules := mods }
+/-- "the accepted text is a printing of its parse": the tokens of the original text equal the tokens
+    of the printed module (the module given in the case is the *implementation's* parse of the text) -/
+def tokeqObs (c : Case) : Sexp :=
+  match c.extra? "orig", c.modules with
+  | some [.str text], [.ast _ _ m] =>
+    match Lex.lex text with
+    | .error _ => Sexp.mk "tokeq" [.sym "lexerr"]
+    | .ok ts =>
+      -- the abstract module does not record the relative order of items of different kinds, so the two
+      -- token lists are compared as multisets (canonical string per token, sorted)
+      -- identifiers are compared by their characters only: `parse_type_ident` glues adjacent identifiers
+      -- (`use F oo;` is the path `Foo`), a documented looseness of the grammar
+      let key (k : Lex.K) : List String := match k with
+        | .ident s => s.toList.map fun ch => "ident-char " ++ toString ch
+        | k => [reprStr k]
+      let a := ((normKinds (ts.map (·.k))).flatMap key).mergeSort (· ≤ ·)
+      let b := ((normKinds (Print.printK true m)).flatMap key).mergeSort (· ≤ ·)
+      if a == b then Sexp.mk "tokeq" [.int 1]
+      else
+        let onlyA := a.filter (fun x => a.count x > b.count x) |>.eraseDups |>.take 4
+        let onlyB := b.filter (fun x => b.count x > a.count x) |>.eraseDups |>.take 4
+        Sexp.mk "tokeq" [.int 0, .str (toString onlyA), .str (toString onlyB)]
+  | _, _ => Sexp.mk "tokeq" [.sym "na"]
 
 def handleCase (points : List String) (line : String) : List String :=
   match Sexp.parse line with
@@ -66,6 +84,7 @@ def handleCase (points : List String) (line : String) : List String :=
           | .error m => Sexp.mk "err" [.str m]))
         else if pt == "o1" then some (obsLine c.id "o1" c.o1)
         else if pt == "o1text" then some (obsLine c.id "o1text" c.o1text)
+        else if pt == "tokeq" then some (obsLine c.id "tokeq" (tokeqObs c))
         else if pt == "spec" then some (obsLine c.id "spec" (specObs c))
         else none
 
